@@ -693,7 +693,8 @@ pub fn run_isolated(kind: &str, inputs: &[Vec<u8>], stack_kb: usize, timeout_s: 
     let mut round = 0;
     while start < inputs.len() {
         round += 1;
-        let path = format!("{}/child-{}-{}-{}.txt", dir, kind, std::process::id(), round);
+        static SERIAL: AtomicU64 = AtomicU64::new(0);
+        let path = format!("{}/child-{}-{}-{}-{}.txt", dir, kind, std::process::id(), SERIAL.fetch_add(1, Ordering::SeqCst), round);
         {
             let mut f = std::fs::File::create(&path).expect("child input file");
             for i in &inputs[start..] {
